@@ -155,6 +155,8 @@ def run(ck, m):
     from nl import alias
     alias.repeat(ck, m, 'C11', ('C11.h',), 'C06.p', runner=__import__('props.C11', fromlist=['x']).loader_keeps_every_record)
     __import__('props.C11', fromlist=['x']).one_mode_rule(ck, m, rule='C06.r')
+    mark_as_saved_always_records(ck, m)
+    key_record_written_once(ck, m)
 
 
 def _run(ck, m):
@@ -1111,3 +1113,55 @@ def offset_roles(ck, m):
           'another key\'s value or garbage, and the next in-place update writes into the middle of a neighbouring record' % '; '.join(sorted(set(bad))[:3]),
           '%s:%s' % (wb.file, wb.line))
     ck.floor('C06.q', npairs, 1, 'offset arguments of the snapshot writer whose role is known on both sides')
+
+
+def mark_as_saved_always_records(ck, m, rule='C06.s'):
+    """C06.s — see RULES"""
+    P = m.prog
+    ck.rule(rule, 'the mark-as-saved function records the offsets it is handed on every call: its write of the entry (the raw writer call) is '
+                  'reached on every path — an early return for an entry that "is clean already" keeps, after a space-reclaiming snapshot that '
+                  'rewrote every record, the offsets of the deleted files in memory; the next in-place update lands in another record')
+    mk = [b for b in P.user_bodies() if b.kind == 'method' and b.id.endswith('bo::Database::set_value_as_ok')]
+    if len(mk) != 1:
+        ck.undecided(rule, 'mark-as-saved', 'anchor', 'Database::set_value_as_ok: found %d' % len(mk))
+        return
+    b = mk[0]
+    writes = [bi for bi, t in b.calls() if callee(t).endswith('set_value_version')
+              or t['f'].get('dargs', '').startswith('std::collections::HashMap::<std::string::String, nundb::bo::Value>::insert')]
+    okf = bool(writes) and any(b.postdominates(x, 0) for x in writes)
+    ck.ob(rule, short(b.id), 'mark-as-saved-always-records-the-offsets', okf,
+          'the entry write post-dominates the entry of the function' if okf else
+          'set_value_as_ok can return without writing the entry (writes at %s do not post-dominate its entry): offsets handed over by the '
+          'snapshot writer are dropped for some entries' % [b.loc(x) for x in writes], '%s:%s' % (b.file, b.line))
+
+
+def key_record_written_once(ck, m, rule='C06.t'):
+    """C06.t — see RULES"""
+    from nl import locks
+    P = m.prog
+    ck.rule(rule, 'one key, one key record: whether the writer updates the key record of a changed entry in place or appends a new one is decided '
+                  'by the reclaim flag alone — a further test (the offsets are 0, so "there is no record yet": true of the very first key of a '
+                  'database) appends a second record for a key that has one; the tombstone of a later remove patches only one of them and the '
+                  'other brings the key back after a restart')
+    try:
+        wb, tm, regions = writer_cells(m)
+    except core.AnchorError as e:
+        ck.undecided(rule, 'writer', 'anchor', str(e))
+        return
+    arm = {x for x in wb.reachable() if 'Updated' in tm and wb.dominates(tm['Updated'], x)}
+    flags = [i for i in range(1, wb.argc + 1) if wb.locals[i] == 'bool']
+    keyw = [bi for bi in sorted(arm) if wb.term(bi)['k'] == 'call' and callee(wb.term(bi)).split('::')[-1] in ('write_key', 'update_key', 'write_new_key_value')]
+    bad = []
+    for kb in keyw:
+        for sw in locks.controlling_switches(wb, kb):
+            if sw not in arm:
+                continue
+            calls_, params_ = locks.backward_slice(wb, wb.term(sw)['o'], control=True)
+            extra = [short(callee(wb.term(c))) for c in calls_ if P.bodies.get(callee(wb.term(c))) is not None and not is_log(wb.term(c))]
+            others = [p for p in params_ if p not in flags]
+            if extra or others:
+                bad.append('%s at %s also depends on %s' % (callee(wb.term(kb)).split('::')[-1], wb.loc(kb), sorted(set(extra)) or ['parameter %s' % wb.var_name(p) for p in others]))
+    ck.ob(rule, short(wb.id), 'key-record-written-once', bool(keyw) and not bad,
+          'in the Updated arm the %d key-record writes are chosen by the reclaim flag alone' % len(keyw) if keyw and not bad else
+          'the Updated arm chooses between in-place update and append on more than the reclaim flag: %s' % sorted(set(bad))[:3], '%s:%s' % (wb.file, wb.line))
+    ck.floor(rule, len(keyw), 2, 'key-record writes in the Updated arm')
